@@ -40,6 +40,17 @@ def launcher_replies_after_stepping(chk: Check, rule: str) -> None:
         chk.ob(rule, hf, ok, f'{handler}: nowait replies with the id immediately; otherwise the reply is the process\'s outputs or its error (future().result())', kind='replies')
 
 
+def continued_with_launcher_context(chk: Check, rule: str) -> None:
+    """A continued process is rebuilt with the launcher's own load context -- its loop, its loader and its COMMUNICATOR: not a context extended with whatever
+    communicator happened to deliver the task (shared with C16: a continued process is reachable, and announces itself, over the configured communicator)."""
+    prog = chk.prog
+    pl = prog.cls('process_comms.ProcessLauncher')
+    cf = prog.view(pl.vmethods['_continue'])
+    ub = [c for c in calls_in_func(cf, 'unbundle')]
+    ok = len(ub) == 1 and norm(ub[0].func.value) == 'saved_state' and [norm(a) for a in ub[0].args] == ['self._load_context']
+    chk.ob(rule, cf, ok, 'the process is rebuilt from that checkpoint with the launcher\'s load context', kind='unbundle-with-context')
+
+
 def run(chk: Check) -> None:
     prog = chk.prog
     pc = prog.module('process_comms')
@@ -237,9 +248,7 @@ def run(chk: Check) -> None:
     if loads:
         c = [c for c in _calls(loads[0]) if last_name(c) == 'load_checkpoint'][0]
         chk.ob('FWD-continue', cf, [norm(a) for a in c.args] == [cf.params[2], cf.params[4]], 'the checkpoint loaded is exactly (pid, tag) of the task', node=c, kind='loads-pid-tag')
-    ub = [c for c in calls_in_func(cf, 'unbundle')]
-    ok = len(ub) == 1 and norm(ub[0].func.value) == 'saved_state' and [norm(a) for a in ub[0].args] == ['self._load_context']
-    chk.ob('PROV-loader', cf, ok, 'the process is rebuilt from that checkpoint with the launcher\'s load context', kind='unbundle-with-context')
+    continued_with_launcher_context(chk, 'PROV-loader')
     init = prog.view(pl.vmethods['__init__'])
     ff = chk.ctx.facts.analyse(init)
     icfg = ff.cfg
